@@ -213,8 +213,46 @@ def relaxLayer (cfg : Cfg S K) (layers : List (List (Node S))) (layer : List (No
     (layer4, cur', log)
   | none => (layer3, keep ++ [mpos], log)
 
+/-- expansion of one node of the current layer (`fast_upper_bound`, rough-bound test, `for_each_in_domain`
+    + `_branch_on`): `(layer, next layer under construction, log)` -/
+def expandOne (cfg : Cfg S K) (var lidx : Nat) (acc : List (Node S) × List (Node S) × List (Call S)) (p : Nat) :
+    List (Node S) × List (Node S) × List (Call S) :=
+  let (ly, nx, lg) := acc
+  match ly[p]? with
+  | none => (ly, nx, lg)
+  | some n =>
+    let rub := cfg.R.rub n.state
+    let n' := { n with rub := rub }
+    let ly := ly.set p n'
+    let lg := Call.rub n.state :: lg
+    if satAdd rub n.value > cfg.lb then
+      let ds := cfg.P.domain var n.state
+      let lg := Call.domain var n.state :: lg
+      let (nx, lg) := ds.foldl (fun (nx, lg) d =>
+        let dec : Dec := ⟨var, d⟩
+        let dst := cfg.P.trans n.state dec
+        (branchOn cfg n' lidx p dec nx, Call.cost n.state dst dec :: Call.trans n.state dec :: lg)) (nx, lg)
+      (ly, nx, lg)
+    else (ly, nx, lg)
+
+def expandAll (cfg : Cfg S K) (var lidx : Nat) (layer : List (Node S)) (cur : List Nat) (log : List (Call S)) :
+    List (Node S) × List (Node S) × List (Call S) :=
+  cur.foldl (expandOne cfg var lidx) (layer, ([] : List (Node S)), log)
+
+/-- `_squash_if_needed` (+ `_maybe_save_lel`); `none` = the Rust code panics -/
+def squash (cfg : Cfg S K) (dd : DD S K) (layer : List (Node S)) (cur : List Nat) :
+    Option (List (Node S) × List Nat × List (Call S) × Option Nat) :=
+  let needRestrict := cfg.ctype == .restricted && cur.length > cfg.width
+  let needRelax := cfg.ctype == .relaxed && cur.length > cfg.width && dd.layers.length > 1
+  if needRelax && cfg.width == 0 then none else                       -- `max_width - 1` underflows
+  if needRestrict && dd.layers.isEmpty then none else                 -- `layers.len() - 1` underflows
+  let lel := if (needRestrict || needRelax) && dd.lel.isNone then some (dd.layers.length - 1) else dd.lel
+  if needRestrict then let (l, c) := restrictLayer cfg layer cur; some (l, c, dd.log, lel)
+  else if needRelax then let (l, c, lg) := relaxLayer cfg dd.layers layer cur dd.log; some (l, c, lg, lel)
+  else some (layer, cur, dd.log, lel)
+
 /-- one iteration of the `while let Some(var) = next_variable(..)` loop after the poll:
-    `_move_to_next_layer` + the expansion of the surviving nodes.  `none` = `break`. -/
+    `_move_to_next_layer` + the expansion of the surviving nodes.  `(some dd, .cutoff)` = `break`. -/
 def stepLayer (cfg : Cfg S K) (dd : DD S K) (var : Nat) : Option (DD S K) × Outcome :=
   if dd.next.isEmpty then
     (some { dd with layers := dd.layers ++ [[]] }, .cutoff)     -- `.cutoff` is used as the "break" marker here
@@ -226,36 +264,12 @@ def stepLayer (cfg : Cfg S K) (dd : DD S K) (var : Nat) : Option (DD S K) × Out
     let (layer, cur, store, okDom) := filterDom cfg dd.store layer cur
     let ndom := dd.ndom + (before - cur.length)
     if !okDom then (none, .crash) else
-    -- squash
-    let needRestrict := cfg.ctype == .restricted && cur.length > cfg.width
-    let needRelax := cfg.ctype == .relaxed && cur.length > cfg.width && dd.layers.length > 1
-    if needRelax && cfg.width == 0 then (none, .crash) else
-    if needRestrict && dd.layers.isEmpty then (none, .crash) else        -- `layers.len() - 1` underflows
-    let lel := if (needRestrict || needRelax) && dd.lel.isNone then some (dd.layers.length - 1) else dd.lel
-    let (layer, cur, log) :=
-      if needRestrict then let (l, c) := restrictLayer cfg layer cur; (l, c, dd.log)
-      else if needRelax then relaxLayer cfg dd.layers layer cur dd.log
-      else (layer, cur, dd.log)
-    let lidx := dd.layers.length
-    -- expansion
-    let (layer, next, log) := cur.foldl (fun (ly, nx, lg) p =>
-      match ly[p]? with
-      | none => (ly, nx, lg)
-      | some n =>
-        let rub := cfg.R.rub n.state
-        let n' := { n with rub := rub }
-        let ly := ly.set p n'
-        let lg := Call.rub n.state :: lg
-        if satAdd rub n.value > cfg.lb then
-          let ds := cfg.P.domain var n.state
-          let lg := Call.domain var n.state :: lg
-          let (nx, lg) := ds.foldl (fun (nx, lg) d =>
-            let dec : Dec := ⟨var, d⟩
-            let dst := cfg.P.trans n.state dec
-            (branchOn cfg n' lidx p dec nx, Call.cost n.state dst dec :: Call.trans n.state dec :: lg)) (nx, lg)
-          (ly, nx, lg)
-        else (ly, nx, lg)) (layer, ([] : List (Node S)), log)
-    (some { dd with layers := dd.layers ++ [layer], next := next, depth := dd.depth + 1, lel := lel, store := store, log := log, ndom := ndom }, .ok)
+    match squash cfg dd layer cur with
+    | none => (none, .crash)
+    | some (layer, cur, log, lel) =>
+      let lidx := dd.layers.length
+      let (layer, next, log) := expandAll cfg var lidx layer cur log
+      (some { dd with layers := dd.layers ++ [layer], next := next, depth := dd.depth + 1, lel := lel, store := store, log := log, ndom := ndom }, .ok)
 
 /-- the compilation loop.  `stopAt = some k`: the cutoff answers "stop" from its `k`-th poll on
     (polls are counted across compilations by the caller through `dd.polls`). -/
